@@ -627,18 +627,8 @@ def signAt (str : List UInt8) (k : Nat) : Option Bool :=
     | some b => some (b == 45 || b == 43)
     | none => none        -- `k = 0` only; not used
 
-/-- format choice of `TimeTZ.UnmarshalJSON` (unguarded indexing) -/
-def timeTZStyle (str : List UInt8) : Option TzStyle :=
-  match signAt str 9 with
-  | none => none
-  | some true => some .colonSec
-  | some false =>
-    match signAt str 6 with
-    | none => none        -- unreachable: length ≥ 9
-    | some true => some .colon
-    | some false => some .short
-
-/-- format choice of `TimestampTZ.UnmarshalJSON` (guarded by `size >= 9`, `size >= 6`) -/
+/-- format choice of `TimeTZ.UnmarshalJSON` and `TimestampTZ.UnmarshalJSON` (guarded by `size >= 9`,
+    `size >= 6`) -/
 def timestampTZStyle (str : List UInt8) : TzStyle :=
   if str.length ≥ 9 && signAt str 9 == some true then .colonSec
   else if str.length ≥ 6 && signAt str 6 == some true then .colon
@@ -651,7 +641,7 @@ def parsedOr (k : GoTime → DateTime) : Option GoTime → UnmarshalOutcome
 /-- `UnmarshalJSON(data)` of the five types -/
 def unmarshalJSON (kind : DTKind) (data : List UInt8) : UnmarshalOutcome :=
   match unquote data with
-  | none => .panic
+  | none => .err                      -- `len(data) < 2`: rejected (repaired defect D21)
   | some str =>
     let s := bytesToChars str
     match kind with
@@ -659,9 +649,7 @@ def unmarshalJSON (kind : DTKind) (data : List UInt8) : UnmarshalOutcome :=
     | .time => parsedOr newTime (goParse timeFracL s)
     | .timestamp => parsedOr newTimestamp (goParse timestampFracL s)
     | .timetz =>
-      match timeTZStyle str with
-      | none => .panic
-      | some st => parsedOr (mkDT .timetz) (goParse (timeTZFracL st) s)        -- `TimeTZ{Time: tim}`
+      parsedOr (mkDT .timetz) (goParse (timeTZFracL (timestampTZStyle str)) s)        -- `TimeTZ{Time: tim}`
     | .timestamptz =>
       parsedOr (mkDT .timestamptz) (goParse (timestampTZFracL (timestampTZStyle str)) s)  -- `TimestampTZ{Time: tim}`
 
